@@ -67,10 +67,16 @@ def _hook(event, args):
             e["existed"] = False
         if w and not _inside_root(path):
             e["blocked"] = True         # safety net: nothing is ever written outside the scratch tree
-            try:                        # would the kernel have created the file?
-                e["parent_exists"] = os.path.isdir(os.path.dirname(path) or ".")   # kernel semantics, not lexical
-            except (ValueError, OSError):
-                e["parent_exists"] = False
+            # what would the kernel have done?  (component-wise resolution, not lexical normalisation)
+            try:
+                os.stat(os.path.dirname(path) or ".")
+                e["would"] = "OSError" if len(os.path.basename(path).encode("utf-8", "surrogateescape")) > 255 else "create"
+            except FileNotFoundError:
+                e["would"] = "FileNotFoundError"
+            except NotADirectoryError:
+                e["would"] = "NotADirectoryError"
+            except (OSError, ValueError) as x:
+                e["would"] = type(x).__name__
         _rec["on"] = True
     else:
         e["args"] = [a if isinstance(a, (str, int, type(None))) else repr(a)[:200] for a in args[:3]]
